@@ -915,7 +915,20 @@ fn format_subexpression(
                 format_unary_op(op, output)?;
             } else {
                 format_unary_op(op, output)?;
-                format_subexpression(inner, prec, OperatorSide::Right, output, context)?;
+                // Keep operator characters apart: "-" then "-x" must not read back as "--x"
+                let mut inner_text = String::new();
+                format_subexpression(inner, prec, OperatorSide::Right, &mut inner_text, context)?;
+                let joins = matches!(
+                    (output.chars().last(), inner_text.chars().next()),
+                    (Some('-'), Some('-')) | (Some('+'), Some('+')) | (Some('&'), Some('&'))
+                );
+                if joins {
+                    output.push('(');
+                    output.push_str(&inner_text);
+                    output.push(')');
+                } else {
+                    output.push_str(&inner_text);
+                }
             }
         }
         ast::Expression::BinaryOperation(op, left, right) => {
@@ -932,7 +945,19 @@ fn format_subexpression(
             output.push_str(" ? ");
             format_subexpression(expr_true, prec, OperatorSide::Middle, output, context)?;
             output.push_str(" : ");
-            format_subexpression(expr_false, prec, OperatorSide::Right, output, context)?;
+            // "a ? b : c = d" reads back as "(a ? b : c) = d" so an assignment in the last arm needs parentheses
+            let false_is_assignment = matches!(
+                &expr_false.node,
+                ast::Expression::BinaryOperation(_, _, _)
+            ) && get_expression_precedence(expr_false)? == prec;
+            let false_precedence = if false_is_assignment { prec - 1 } else { prec };
+            format_subexpression(
+                expr_false,
+                false_precedence,
+                OperatorSide::Right,
+                output,
+                context,
+            )?;
         }
         ast::Expression::ArraySubscript(expr_object, expr_index) => {
             format_subexpression(expr_object, prec, OperatorSide::Left, output, context)?;
